@@ -2,6 +2,7 @@
 package c07
 
 import (
+	"bytes"
 	"encoding/base64"
 	"encoding/binary"
 	"encoding/hex"
@@ -52,8 +53,13 @@ func probe(c *enum.Ctx, in []byte, tag string, wrappers bool) string {
 	before := allocBytes()
 	var roots []*tb.Cell
 	var err error
+	orig := append([]byte{}, in...)
 	if c.Try("panic:DeserializeBoc:"+tag, func() { roots, err = tb.DeserializeBoc(in) }) {
 		return "panic"
+	}
+	if !bytes.Equal(in, orig) {
+		c.Fail("input-modified:"+tag, "DeserializeBoc changed the bytes it was given (%x became %x)", orig[:min(len(orig), 40)], in[:min(len(in), 40)])
+		copy(in, orig)
 	}
 	after := allocBytes()
 	if lim := uint64(4096*len(in) + 1<<20); after-before > lim {
@@ -85,6 +91,14 @@ func probe(c *enum.Ctx, in []byte, tag string, wrappers bool) string {
 			c.Try("panic:ToBoc:"+tag, func() { _, _ = r.ToBoc() })
 			c.Try("panic:ToString:"+tag, func() { _ = r.ToString() })
 			c.Try("panic:MarshalJSON:"+tag, func() { _, _ = r.MarshalJSON() })
+			// the same through one reusable hasher (what tlb.Decoder and the lite-api client hold on to): asked again after
+			// a failure it fails again or answers, it does not panic
+			hs := tb.NewHasher()
+			for round := 0; round < 2; round++ {
+				c.Try("panic:Hasher.Hash:"+tag, func() { _, _ = hs.Hash(r) })
+				c.Try("panic:Hasher.HashString:"+tag, func() { _, _ = hs.HashString(r) })
+				c.Try("panic:ToBocCustomWithHasher:"+tag, func() { _, _ = r.ToBocCustomWithHasher(hs, false, false, false, 0) })
+			}
 		}
 	}
 	if wrappers && len(in) <= 600 {
